@@ -7,6 +7,10 @@
 //   S <tag> <m|c> <perm> [<perm> ...]         apply the permutations in turn to a fresh copy through the member function
 //                                             (m) or the C wrapper (c); perm = comma separated size_t values, "-" = empty
 //   E <tag> <perm> <x hex64>*ndim             value of the original at x and of the permuted table at (x[perm[0]], x[perm[1]], ...)
+//   V <tag> <m|c> <perm>                      tables too large to dump (> 2^24 coefficients): the coefficient array is filled with a pattern
+//                                             of the flat index, permuted, and verified HERE against an independent index computation
+//                                             (the statement of C15_coeff_relocated); then the inverse is applied and the original pattern
+//                                             must be back. Output: st=.. nd=.. order=.. nknots=.. naxes=.. strides=.. bad=<#wrong> first=<flat> inv=<0|1>
 // Output, one line per command: "<tag> st=<status,...> eq=<0|1> nd=.. order=.. nknots=.. naxes=.. strides=.. knots=.. ext=.. per=.. coef=.."
 // status: ok | Length | TooLarge | Duplicate | Missing | Other (member function, from the exception text) ; rc0 | rc1 (C wrapper).
 // eq = operator== against an untouched copy. knots are dumped with their padding (order elements on both sides), because the
@@ -17,7 +21,8 @@
 struct DimSpec { uint32_t order; double pad, e0, e1, per; std::vector<double> kn; };
 struct Spec { uint32_t nd; bool hasper; std::vector<DimSpec> d; std::vector<float> co; };
 
-static void build(ST& t, const Spec& s){
+static inline float pattern_of(uint64_t i){ return (float)((i % 16777213ull) + 1); }     // exact in float, distinct within any window of 2^24-3
+static void build(ST& t, const Spec& s, bool pattern=false){
   uint32_t nd=s.nd; t.ndim=nd;
   t.order=t.allocate<uint32_t>(nd); t.nknots=t.allocate<uint64_t>(nd);
   t.naxes=t.allocate<uint64_t>(nd); t.strides=t.allocate<uint64_t>(nd);
@@ -33,7 +38,8 @@ static void build(ST& t, const Spec& s){
   }
   t.strides[nd-1]=1; for(int i=nd-1;i>0;i--) t.strides[i-1]=t.strides[i]*t.naxes[i];
   uint64_t n=t.strides[0]*t.naxes[0]; t.coefficients=t.allocate<float>(n);
-  for(uint64_t i=0;i<n;i++) t.coefficients[i]= i<s.co.size()?s.co[i]:0.f;
+  if(pattern) for(uint64_t i=0;i<n;i++) t.coefficients[i]=pattern_of(i);
+  else for(uint64_t i=0;i<n;i++) t.coefficients[i]= i<s.co.size()?s.co[i]:0.f;
   if(s.hasper){ t.periods=t.allocate<double>(nd); for(uint32_t i=0;i<nd;i++) t.periods[i]=s.d[i].per; }
   else t.periods=NULL;
   t.naux=0; t.aux=NULL;
@@ -84,7 +90,7 @@ int main(int argc,char** argv){
     else if(tk[0]=="D"){ DimSpec d; d.order=atoi(tk[1].c_str()); d.pad=dfrom(parse_hex(tk[3])); d.e0=dfrom(parse_hex(tk[4])); d.e1=dfrom(parse_hex(tk[5]));
       d.per=dfrom(parse_hex(tk[6])); for(size_t i=7;i<tk.size();i++) d.kn.push_back(dfrom(parse_hex(tk[i]))); sp.d.push_back(d); }
     else if(tk[0]=="C"){ sp.co.clear(); for(size_t i=2;i<tk.size();i++) sp.co.push_back(ffrom((uint32_t)parse_hex(tk[i]))); }
-    else if(tk[0]=="I"||tk[0]=="S"||tk[0]=="E"){
+    else if(tk[0]=="I"||tk[0]=="S"||tk[0]=="E"||tk[0]=="V"){
       if(qn++ < skip) continue;
       fprintf(stderr,"@%s\n",tk[1].c_str()); fflush(stderr);
       std::ostringstream os; os<<tk[1];
@@ -101,6 +107,35 @@ int main(int argc,char** argv){
         }
         bool eq=false; try{ eq=(t==ref); }catch(...){}
         os<<" st="<<st<<" eq="<<(eq?1:0)<<" "<<dump(t);
+      }
+      else if(tk[0]=="V"){
+        ST t; build(t,sp,true);
+        uint32_t nd=sp.nd; std::vector<uint64_t> sh0(nd), st0(nd);
+        for(uint32_t i=0;i<nd;i++){ sh0[i]=t.naxes[i]; st0[i]=t.strides[i]; }
+        uint64_t n=1; for(uint32_t i=0;i<nd;i++) n*=sh0[i];
+        std::vector<size_t> p=parse_perm(tk[3]);
+        std::string st;
+        if(tk[2]=="m") st=apply_member(t,p);
+        else { std::vector<size_t> pc=p; pc.resize(std::max<size_t>(pc.size(),nd+1),0); struct splinetable ct; ct.data=(void*)&t; int rc=splinetable_permute(&ct,pc.data()); st= rc==0?"rc0":"rc1"; }
+        os<<" st="<<st<<" nd="<<t.ndim<<" order="<<joinnum(&t.order[0],nd)<<" nknots="<<joinnum(&t.nknots[0],nd)<<" naxes="<<joinnum(&t.naxes[0],nd)<<" strides="<<joinnum(&t.strides[0],nd);
+        uint64_t bad=0, first=0;
+        if((st=="ok"||st=="rc0") && p.size()>=nd){
+          // row-major strides of the NEW shape, computed here
+          std::vector<uint64_t> sh1(nd), st1(nd); for(uint32_t i=0;i<nd;i++) sh1[i]=sh0[p[i]];
+          st1[nd-1]=1; for(int i=nd-1;i>0;i--) st1[i-1]=st1[i]*sh1[i];
+          std::vector<uint64_t> m(nd,0);
+          for(uint64_t pos=0;pos<n;pos++){
+            uint64_t np=0; for(uint32_t i=0;i<nd;i++) np+=m[p[i]]*st1[i];
+            if(t.coefficients[np]!=pattern_of(pos)){ if(!bad) first=pos; bad++; }
+            for(int d=nd-1; d>=0; d--){ if(++m[d]<sh0[d]) break; m[d]=0; }
+          }
+          std::vector<size_t> q(nd); for(uint32_t i=0;i<nd;i++) q[p[i]]=i;
+          std::string st2=apply_member(t,q);
+          bool inv= st2=="ok";
+          if(inv){ for(uint32_t i=0;i<nd;i++) if(t.naxes[i]!=sh0[i]||t.strides[i]!=st0[i]) inv=false;
+                   if(inv) for(uint64_t pos=0;pos<n;pos++) if(t.coefficients[pos]!=pattern_of(pos)){ inv=false; break; } }
+          os<<" bad="<<bad<<" first="<<first<<" inv="<<(inv?1:0);
+        }
       }
       else { // E
         ST t, tp; build(t,sp); build(tp,sp);
